@@ -124,7 +124,7 @@ def gen_case(rng):
     if any(e["kind"] == "agent_removal" and e["agent_type"] == "sensor" for e in events):
         events = [e for e in events if not (e["kind"] == "sensor_time_bias" and e["sensor"] == S_IDS[1])] or events[:1]
     return {"kind": "case", "start": start.isoformat(), "step": step, "n": n, "events": events, "model": rng.choice(["two_body"] * 4 + ["special_perturbations"]),
-            "visible": rng.random() < 0.5}
+            "visible": rng.random() < 0.5, "engine_ids": rng.choice([[1, 2], [0, 7], [7, 0], [5, 0], [0, 1], [12, 3]])}
 
 
 # ---------------------------------------------------------------------------------------------
@@ -172,7 +172,8 @@ def build_cfg(case):
     snew = sk.ground_sensor_cfg(NEW_S, 50.0, 10.0, **blind)
     rs, vs = sk.circ_state(7300.0, 63.0, 200.0, 10.0)
     snew_space = sk.space_sensor_cfg(NEW_S, rs, vs, kind="optical")
-    engines = [sk.engine_cfg(1, [tcfg[T_IDS[0]], tcfg[T_IDS[1]]], [s1]), sk.engine_cfg(2, [tcfg[T_IDS[2]]], [s2])]
+    eid = {1: case.get("engine_ids", [1, 2])[0], 2: case.get("engine_ids", [1, 2])[1]}
+    engines = [sk.engine_cfg(eid[1], [tcfg[T_IDS[0]], tcfg[T_IDS[1]]], [s1]), sk.engine_cfg(eid[2], [tcfg[T_IDS[2]]], [s2])]
     evs = []
     for e in case["events"]:
         t = start + timedelta(seconds=e["off"])
@@ -181,15 +182,15 @@ def build_cfg(case):
                         "thrust_vector": e["dv"], "thrust_frame": e["frame"], "planned": e["planned"]})
         elif e["kind"] == "target_addition":
             evs.append({"scope": "scenario_step", "scope_instance_id": 0, "start_time": sk.iso(t), "event_type": "target_addition",
-                        "tasking_engine_id": e["engine"], "target_agent": tcfg[NEW_T]})
+                        "tasking_engine_id": eid[e["engine"]], "target_agent": tcfg[NEW_T]})
         elif e["kind"] == "sensor_addition":
             evs.append({"scope": "scenario_step", "scope_instance_id": 0, "start_time": sk.iso(t), "event_type": "sensor_addition",
-                        "tasking_engine_id": e["engine"], "sensor_agent": snew if e.get("platform", "ground") == "ground" else snew_space})
+                        "tasking_engine_id": eid[e["engine"]], "sensor_agent": snew if e.get("platform", "ground") == "ground" else snew_space})
         elif e["kind"] == "agent_removal":
             evs.append({"scope": "scenario_step", "scope_instance_id": 0, "start_time": sk.iso(t), "event_type": "agent_removal",
-                        "tasking_engine_id": e["engine"], "agent_id": e["agent"], "agent_type": e["agent_type"]})
+                        "tasking_engine_id": eid[e["engine"]], "agent_id": e["agent"], "agent_type": e["agent_type"]})
         elif e["kind"] == "task_priority":
-            evs.append({"scope": "task_reward_generation", "scope_instance_id": e["engine"], "start_time": sk.iso(t),
+            evs.append({"scope": "task_reward_generation", "scope_instance_id": eid[e["engine"]], "start_time": sk.iso(t),
                         "end_time": sk.iso(start + timedelta(seconds=e["end"])), "event_type": "task_priority",
                         "target_id": e["target"], "target_name": f"T{e['target']}", "priority": e["priority"]})
         elif e["kind"] == "sensor_time_bias":
@@ -321,6 +322,7 @@ def eval_case(ctx, case):
     sk.init()
     step, n = case["step"], case["n"]
     events = case["events"]
+    EID = {1: case.get("engine_ids", [1, 2])[0], 2: case.get("engine_ids", [1, 2])[1]}
     log = Log()
     cfg = build_cfg(case)
     b = sk.build(cfg)
@@ -399,9 +401,9 @@ def eval_case(ctx, case):
             if e["target"] in removed_targets:
                 want_steps = [k for k in want_steps if k < removed_targets[e["target"]]]
             got = sorted(d[5] for d in dl)
-            ctx.check(all(d[3] == "engine" and d[4] == e["engine"] for d in dl), "delivery-addressee-priority",
-                      f"task priority for engine {e['engine']} delivered to {sorted(set((d[3], d[4]) for d in dl))}", wit, mon="delivery_addressee")
-            mine = sorted(d[5] for d in dl if d[4] == e["engine"])
+            ctx.check(all(d[3] == "engine" and d[4] == EID[e["engine"]] for d in dl), "delivery-addressee-priority",
+                      f"task priority for engine {EID[e['engine']]} delivered to {sorted(set((d[3], d[4]) for d in dl))}", wit, mon="delivery_addressee")
+            mine = sorted(d[5] for d in dl if d[4] == EID[e["engine"]])
             ctx.check(mine == want_steps, f"duration-steps-priority-{tag}", f"task priority [{e['off']},{e['end']}]s active in steps {mine}, expected {want_steps} (step {step}s)", wit, mon="duration_active_steps")
             _ = got
         elif e["kind"] == "sensor_time_bias":
@@ -478,14 +480,14 @@ def eval_case(ctx, case):
                     eng_s[e["engine"]].discard(e["agent"])
         m = log.membership[k]
         ok = set(m["targets"]) == exp_t and set(m["estimates"]) == exp_t and set(m["sensors"]) == exp_s
-        ok = ok and all(set(m["engines"][eid][0]) == eng_t[eid] and set(m["engines"][eid][1]) == eng_s[eid] for eid in (1, 2))
+        ok = ok and all(set(m["engines"][EID[i]][0]) == eng_t[i] and set(m["engines"][EID[i]][1]) == eng_s[i] for i in (1, 2))
         ctx.check(ok, "membership", f"after step {k}: targets {m['targets']} sensors {m['sensors']} engines {m['engines']}; expected targets {sorted(exp_t)} sensors {sorted(exp_s)} engines {eng_t} {eng_s}", wit, mon="membership")
 
     # ---- priority effect on the reward matrix handed to the decision --------------------------------
     for (k, eid), (seen, base, tlist) in log.reward_seen.items():
         factor = np.ones(len(tlist))
         for e in events:
-            if e["kind"] == "task_priority" and e["engine"] == eid and e["target"] in tlist and e["off"] <= k * step and e["end"] > (k - 1) * step:
+            if e["kind"] == "task_priority" and EID[e["engine"]] == eid and e["target"] in tlist and e["off"] <= k * step and e["end"] > (k - 1) * step:
                 factor[tlist.index(e["target"])] *= e["priority"]
         want = base * factor[:, None]
         active = bool(np.any(factor != 1.0))
